@@ -144,7 +144,7 @@ UNIT = {
         {"kind": "type", "file": M, "name": "SyntaxPattern"},
         {"kind": "impl", "file": M, "impl": r"^impl SyntaxPattern$",
          "header_rewrites": [("X2", r"impl SyntaxPattern", "impl Located<SyntaxPatternBody>")],
-         "methods": {"match_datum": {"props": ["C04"],
+         "methods": {"match_datum": {"props": ["C04", "C07"],
              "attrs": "#[verifier::exec_allows_no_decreases_clause]",
              "sig_rewrites": [("X2", r"pattern_literals: &HashSet<String>,", "pattern_literals: &LiteralSet,", 1),
                               ("X2", r"substitutions: &mut HashMap<String, \(Datum, Vec<Datum>\)>,", "substitutions: &mut Substitutions,", 1),
